@@ -60,6 +60,15 @@ theorem c06_union_empty_paths (xs : Dict) (p : List Str) :
 
 /-! ### one wrapper, a list of sources applied in order -/
 
+/-- running example: `class A: a: int = 1; s: S` with `class S: b: int = 2`, registered at dest `c`;
+    sources `srcA1 = {a: 5, s: {b: 6}}`, `srcA2 = {a: 7}` -/
+def clsA : WT := .leaf ['a'] (some (.int 1)) .null (.nested ['s'] none (.leaf ['b'] (some (.int 2)) .null .nil) .nil)
+def regA : RegIn := { dest := ['c'], cls := clsA, instKw := none }
+def srcA1 : Dict := [(['a'], .int 5), (['s'], .dict [(['b'], .int 6)])]
+def srcA2 : Dict := [(['a'], .int 7)]
+/-- `clsA` after `srcA1`, `srcA2` -/
+def clsA12 : WT := .leaf ['a'] (some (.int 1)) (.int 7) (.nested ['s'] none (.leaf ['b'] (some (.int 2)) (.int 6) .nil) .nil)
+
 /-- successive `wrapper.set_default(d)` calls -/
 def applySrcs : WT → List Dict → Out WT
   | wt, [] => .ok wt
@@ -107,6 +116,10 @@ theorem c06_slot_after_sources : ∀ (ds : List Dict) (wt wt' : WT) (p : List St
       have h1 := slotAt_setFields wt d w p m (setDefault_ok hs).1 hp
       simpa [foldAssign] using c06_slot_after_sources ds w wt' p _ h h1
 
+/-- non-vacuous: the nested leaf `s.b` after `srcA1`, `srcA2` holds 6 (the second source does not contain it) -/
+example : slotAt clsA12 [['s'], ['b']] = some (.int 6) :=
+  c06_slot_after_sources [srcA1, srcA2] clsA clsA12 [['s'], ['b']] .null rfl rfl
+
 /-- a source that does not contain the path can be dropped: it leaves the leaf to the other sources -/
 theorem foldAssign_skip (p : List Str) (pre post : List Dict) (s : Dict) (m : J)
     (hs : getPath p (.dict s) = none) :
@@ -144,6 +157,13 @@ theorem c06_priority_general (wt wt' : WT) (ds : List Dict) (ctx : Option Dict) 
   have h1 := c06_slot_after_sources ds wt wt' p m hsrc hp
   obtain ⟨b, hb, hg, hn⟩ := getPath_resolve wt' ctx cmd out p _ hres h1
   exact ⟨b, by rw [← baseAt_upd (applySrcs_upd ds wt wt' hsrc)]; exact hb, hg, hn⟩
+
+/-- non-vacuous: sources `srcA1`, `srcA2`, command line `--s.b 9`: `a = 7` (last source), `s.b = 9` (command line) -/
+example : ∃ b, baseAt clsA none [['a']] = some b ∧
+    getPath [['a']] (.dict [(['a'], .int 7), (['s'], .dict [(['b'], .int 9)])]) =
+      some (pick (getPath [['a']] (.dict [(['s'], .dict [(['b'], .int 9)])])) (foldAssign [['a']] [srcA1, srcA2] .null) b) ∧
+    (pick (getPath [['a']] (.dict [(['s'], .dict [(['b'], .int 9)])])) (foldAssign [['a']] [srcA1, srcA2] .null) b).isNull = false :=
+  c06_priority_general clsA clsA12 [srcA1, srcA2] none [(['s'], .dict [(['b'], .int 9)])] _ [['a']] .null rfl rfl rfl
 
 /-- a source *mentions* a leaf: it assigns a non-None value -/
 def Mentions (p : List Str) (s : Dict) (v : J) : Prop := getPath p (.dict s) = some v ∧ v.isNull = false
@@ -219,6 +239,10 @@ theorem c06_cmdline_wins (wt wt' : WT) (ds : List Dict) (ctx : Option Dict) (cmd
   obtain ⟨b, _, hg, _⟩ := c06_priority_general wt wt' ds ctx cmd out p m hsrc hres hp
   rw [hg, hcmd]; rfl
 
+example : getPath [['s'], ['b']] (.dict [(['a'], .int 7), (['s'], .dict [(['b'], .int 9)])]) = some (.int 9) :=
+  c06_cmdline_wins clsA clsA12 [srcA1, srcA2] none [(['s'], .dict [(['b'], .int 9)])] _ [['s'], ['b']] .null (.int 9)
+    rfl rfl rfl rfl
+
 /-- **leafwise merging**: a source that does not contain a leaf (it may set any of its siblings) has no influence
     on that leaf — the result there is what the remaining sources, the default instance and the definition give -/
 theorem c06_leafwise (wt w1 w2 : WT) (pre post : List Dict) (s : Dict) (ctx : Option Dict) (cmd o1 o2 : Dict)
@@ -232,15 +256,73 @@ theorem c06_leafwise (wt w1 w2 : WT) (pre post : List Dict) (s : Dict) (ctx : Op
   have : b1 = b2 := by rw [hb1] at hb2; exact Option.some.inj hb2
   rw [hg1, hg2, foldAssign_skip p pre post s m hs, this]
 
-/-- **lowest layers**: a leaf no source contains and the command line does not give takes the attribute of the
-    default instance when there is one, else the definition default -/
-theorem c06_falls_to_default (wt wt' : WT) (ds : List Dict) (ctx : Option Dict) (cmd out : Dict) (p : List Str)
+/-- non-vacuous: `srcA2 = {a: 7}` does not contain `s.b`; with or without it `s.b = 6` -/
+example : getPath [['s'], ['b']] (.dict [(['a'], .int 7), (['s'], .dict [(['b'], .int 6)])]) =
+    getPath [['s'], ['b']] (.dict [(['a'], .int 5), (['s'], .dict [(['b'], .int 6)])]) :=
+  c06_leafwise clsA clsA12 (.leaf ['a'] (some (.int 1)) (.int 5) (.nested ['s'] none (.leaf ['b'] (some (.int 2)) (.int 6) .nil) .nil))
+    [srcA1] [] srcA2 none [] _ _ [['s'], ['b']] .null rfl rfl rfl rfl rfl rfl
+
+/-- **lowest layers**: a leaf no source contains and the command line does not give keeps what it had before the
+    sources were applied: its slot if that is not None — after `add_arguments(default=inst)` the slot already holds the
+    instance's attribute (`slotAt_initInst`), after `set_defaults(**kw)` the keyword value — and otherwise the attribute
+    of the default instance its wrapper sees, else the definition default -/
+theorem c06_falls_to_default (wt wt' : WT) (ds : List Dict) (ctx : Option Dict) (cmd out : Dict) (p : List Str) (m : J)
     (hsrc : applySrcs wt ds = .ok wt') (hres : resolve wt' ctx cmd = .ok out)
-    (hp : slotAt wt p = some .null) (hcmd : getPath p (.dict cmd) = none)
+    (hp : slotAt wt p = some m) (hcmd : getPath p (.dict cmd) = none)
     (hds : ∀ t ∈ ds, getPath p (.dict t) = none) :
-    getPath p (.dict out) = baseAt wt ctx p := by
-  obtain ⟨b, hb, hg, _⟩ := c06_priority_general wt wt' ds ctx cmd out p .null hsrc hres hp
-  rw [hg, hcmd, foldAssign_none p ds .null hds, hb]; rfl
+    ∃ b, baseAt wt ctx p = some b ∧ getPath p (.dict out) = some (if m.isNull then b else m) := by
+  obtain ⟨b, hb, hg, _⟩ := c06_priority_general wt wt' ds ctx cmd out p m hsrc hres hp
+  refine ⟨b, hb, ?_⟩
+  rw [hg, hcmd, foldAssign_none p ds m hds]
+  cases hm : m.isNull <;> simp [pick, hm]
+
+/-- non-vacuous: no source mentions `s.b`, the slot is empty: the definition default 2 -/
+example : ∃ b, baseAt clsA none [['s'], ['b']] = some b ∧
+    getPath [['s'], ['b']] (.dict [(['a'], .int 7), (['s'], .dict [(['b'], .int 2)])]) = some (if J.null.isNull then b else .null) :=
+  c06_falls_to_default clsA (.leaf ['a'] (some (.int 1)) (.int 7) (.nested ['s'] none (.leaf ['b'] (some (.int 2)) .null .nil) .nil))
+    [srcA2] none [] _ [['s'], ['b']] .null rfl rfl rfl rfl
+    (by intro t ht; simp at ht; subst ht; rfl)
+
+/-- `DataclassWrapper.__init__` with a default instance: the slot of every leaf the instance has becomes the
+    instance's attribute — the default-instance layer enters the theorems above as this initial slot -/
+theorem slotAt_initInst : ∀ (cls : WT) (i : Dict) (p : List Str) (m v : J),
+    slotAt cls p = some m → getPath p (.dict i) = some v → slotAt (initInst cls i) p = some v
+  | .nil, i, p, m, v, hp, _ => by simp [slotAt] at hp
+  | .leaf n df m0 rest, i, p, m, v, hp, hv => by
+    cases p with
+    | nil => simp [slotAt] at hp
+    | cons k q =>
+      by_cases hk : k = n
+      · subst hk
+        by_cases hq : q = []
+        · subst hq
+          cases hd : dget i k <;> simp [getPath, hd] at hv
+          subst hv
+          simp [initInst, slotAt, hd]
+        · simp [slotAt, hq] at hp
+      · simp only [slotAt, hk, if_false] at hp
+        simpa [initInst, slotAt, hk] using slotAt_initInst rest i (k :: q) m v hp hv
+  | .nested n fac sub rest, i, p, m, v, hp, hv => by
+    cases p with
+    | nil => simp [slotAt] at hp
+    | cons k q =>
+      by_cases hk : k = n
+      · subst hk
+        simp only [slotAt, if_true] at hp
+        cases q with
+        | nil => simp [slotAt_nil_path] at hp
+        | cons k2 q2 =>
+          cases hd : dget i k with
+          | none => simp [getPath, hd] at hv
+          | some x =>
+            cases x <;> simp [getPath, hd] at hv
+            rename_i d
+            simpa [initInst, slotAt, hd] using slotAt_initInst sub d (k2 :: q2) m v hp (by simpa [getPath] using hv)
+      · simp only [slotAt, hk, if_false] at hp
+        simpa [initInst, slotAt, hk] using slotAt_initInst rest i (k :: q) m v hp hv
+
+example : slotAt (initInst clsA [(['a'], .int 10), (['s'], .dict [(['b'], .int 11)])]) [['s'], ['b']] = some (.int 11) :=
+  slotAt_initInst clsA _ [['s'], ['b']] .null (.int 11) rfl rfl
 
 /-! ### unknown keys -/
 
@@ -319,6 +401,10 @@ theorem c06_unknown_key_any_depth (wt : WT) (d : Dict)
 
 example : nestedUnknown (.nested ['s'] none (.leaf ['b'] none .null .nil) .nil)
     [(['s'], .dict [(['b'], .int 1), (['q'], .int 2)])] = true := by decide
+
+/-- non-vacuous, nested arm: `{s: {b: 1, q: 2}}` on `clsA` — `q` names no field of `S` — cannot succeed -/
+example : ∀ w, setDefault clsA [(['s'], .dict [(['b'], .int 1), (['q'], .int 2)])] ≠ .ok w :=
+  c06_unknown_key_any_depth clsA _ (Or.inr (by decide))
 
 /-! ### the parser with one registration (`parse()`, or one `add_arguments`): which sources, in which order -/
 
@@ -525,10 +611,469 @@ theorem c06_parse_priority (wr : Bool) (st : PState) (r : Reg) (pin : ParseIn) (
   rw [hcmd, hout]
   simpa [getPath, dget] using hg
 
+/-! ### totality: a well-formed scenario *does* return a result -/
+
+/-- every leaf gets a value: its `pick` (command line, else slot, else instance attribute / definition) is not None -/
+def allPicked : WT → Option Dict → Dict → Bool
+  | .nil, _, _ => true
+  | .leaf n df m rest, ctx, cmd =>
+    !(pick (dget cmd n) m (leafBase n df ctx)).isNull && allPicked rest ctx cmd
+  | .nested n fac sub rest, ctx, cmd =>
+    allPicked sub (childCtx n fac sub ctx) (sectionOf (dget cmd n)) && allPicked rest ctx cmd
+
+theorem resolve_ok_of_allPicked : ∀ (wt : WT) (ctx : Option Dict) (cmd : Dict),
+    allPicked wt ctx cmd = true → ∃ out, resolve wt ctx cmd = .ok out
+  | .nil, _, _, _ => ⟨[], rfl⟩
+  | .leaf n df m rest, ctx, cmd, h => by
+    simp only [allPicked, Bool.and_eq_true, Bool.not_eq_true'] at h
+    obtain ⟨r, hr⟩ := resolve_ok_of_allPicked rest ctx cmd h.2
+    exact ⟨(n, pick (dget cmd n) m (leafBase n df ctx)) :: r, by rw [resolve_leaf]; simp [h.1, hr]⟩
+  | .nested n fac sub rest, ctx, cmd, h => by
+    simp only [allPicked, Bool.and_eq_true] at h
+    obtain ⟨i, hi⟩ := resolve_ok_of_allPicked sub _ _ h.1
+    obtain ⟨r, hr⟩ := resolve_ok_of_allPicked rest ctx cmd h.2
+    exact ⟨(n, .dict i) :: r, by simp [resolve, hi, hr]⟩
+
+/-- a nested section given a scalar (not a dict, not None) at any depth: `dataclasses.asdict` → `TypeError` -/
+def scalarNested : WT → Dict → Bool
+  | .nil, _ => false
+  | .leaf _ _ _ rest, d => scalarNested rest d
+  | .nested n _ sub rest, d =>
+    (match dget d n with
+     | none => false
+     | some .null => false
+     | some (.dict d') => scalarNested sub d'
+     | some _ => true) || scalarNested rest d
+
+theorem setFields_ok : ∀ (wt : WT) (d : Dict), nestedUnknown wt d = false → scalarNested wt d = false →
+    ∃ w, setFields wt d = .ok w
+  | .nil, d, _, _ => ⟨.nil, rfl⟩
+  | .leaf n df m rest, d, hu, hs => by
+    simp only [nestedUnknown] at hu
+    simp only [scalarNested] at hs
+    obtain ⟨r, hr⟩ := setFields_ok rest d hu hs
+    cases hd : dget d n <;> simp [setFields, hr, hd]
+  | .nested n fac sub rest, d, hu, hs => by
+    simp only [nestedUnknown, Bool.or_eq_false_iff] at hu
+    simp only [scalarNested, Bool.or_eq_false_iff] at hs
+    obtain ⟨r, hr⟩ := setFields_ok rest d hu.2 hs.2
+    cases hd : dget d n with
+    | none => simp [setFields, hd, hr]
+    | some v =>
+      cases v with
+      | null => simp [setFields, hd, hr]
+      | int i => simp [hd] at hs
+      | str x => simp [hd] at hs
+      | atom x => simp [hd] at hs
+      | dict d' =>
+        simp only [hd, Bool.or_eq_false_iff] at hu hs
+        obtain ⟨w, hw⟩ := setFields_ok sub d' hu.1.2 hs.1
+        simp [setFields, hd, hw, hu.1.1, hr]
+
+/-- a source the wrapper accepts: no key that names no field (at any depth), no scalar where a section is expected -/
+def goodSrc (wt : WT) (d : Dict) : Bool := !unknownKeys wt d && !nestedUnknown wt d && !scalarNested wt d
+
+/-- **`set_default` succeeds** on every well-formed source -/
+theorem setDefault_ok_of_good (wt : WT) (d : Dict) (h : goodSrc wt d = true) : ∃ w, setDefault wt d = .ok w := by
+  simp only [goodSrc, Bool.and_eq_true, Bool.not_eq_true'] at h
+  obtain ⟨w, hw⟩ := setFields_ok wt d h.1.2 h.2
+  exact ⟨w, by simp [setDefault, hw, h.1.1]⟩
+
+theorem unknownKeys_upd {wt w : WT} (h : Upd wt w) (d : Dict) : unknownKeys w d = unknownKeys wt d := by
+  simp [unknownKeys, names_upd h]
+
+theorem nestedUnknown_upd {wt w : WT} (h : Upd wt w) : ∀ d, nestedUnknown w d = nestedUnknown wt d := by
+  induction h with
+  | nil => intro d; rfl
+  | leaf _ ih => intro d; simp [nestedUnknown, ih]
+  | nested hs _ ih1 ih2 =>
+    intro d
+    simp only [nestedUnknown, ih2]
+    cases hd : dget d _ with
+    | none => rfl
+    | some v => cases v <;> simp [unknownKeys_upd hs, ih1]
+
+theorem scalarNested_upd {wt w : WT} (h : Upd wt w) : ∀ d, scalarNested w d = scalarNested wt d := by
+  induction h with
+  | nil => intro d; rfl
+  | leaf _ ih => intro d; simp [scalarNested, ih]
+  | nested _ _ ih1 ih2 =>
+    intro d
+    simp only [scalarNested, ih2]
+    cases hd : dget d _ with
+    | none => rfl
+    | some v => cases v <;> simp [ih1]
+
+theorem goodSrc_upd {wt w : WT} (h : Upd wt w) (d : Dict) : goodSrc w d = goodSrc wt d := by
+  simp [goodSrc, unknownKeys_upd h, nestedUnknown_upd h, scalarNested_upd h]
+
+theorem applySrcs_ok : ∀ (ds : List Dict) (wt : WT), (∀ d ∈ ds, goodSrc wt d = true) → ∃ w, applySrcs wt ds = .ok w
+  | [], wt, _ => ⟨wt, rfl⟩
+  | d :: ds, wt, h => by
+    obtain ⟨w1, h1⟩ := setDefault_ok_of_good wt d (h d (by simp))
+    have hu := setFields_upd _ _ _ (setDefault_ok h1).1
+    obtain ⟨w, hw⟩ := applySrcs_ok ds w1 (fun d' hd' => by rw [goodSrc_upd hu]; exact h d' (by simp [hd']))
+    exact ⟨w, by simp [applySrcs, h1, hw]⟩
+
+/-- **totality + priority**: when every source is well-formed and every leaf ends up with some value, the wrapper
+    pipeline returns a result, and that result holds the priority value at every leaf -/
+theorem c06_total (wt : WT) (ds : List Dict) (ctx : Option Dict) (cmd : Dict)
+    (hgood : ∀ d ∈ ds, goodSrc wt d = true)
+    (hpick : ∀ w, applySrcs wt ds = .ok w → allPicked w ctx cmd = true) :
+    ∃ w out, applySrcs wt ds = .ok w ∧ resolve w ctx cmd = .ok out ∧
+      ∀ p m, slotAt wt p = some m → ∃ b, baseAt wt ctx p = some b ∧
+        getPath p (.dict out) = some (pick (getPath p (.dict cmd)) (foldAssign p ds m) b) := by
+  obtain ⟨w, hw⟩ := applySrcs_ok ds wt hgood
+  obtain ⟨out, ho⟩ := resolve_ok_of_allPicked w ctx cmd (hpick w hw)
+  refine ⟨w, out, hw, ho, fun p m hp => ?_⟩
+  obtain ⟨b, hb, hg, _⟩ := c06_priority_general wt w ds ctx cmd out p m hw ho hp
+  exact ⟨b, hb, hg⟩
+
+/-- a condition on the *class and command line alone* that makes every leaf end up with a value whatever the sources
+    do: each leaf has a definition default / instance attribute, and no command-line value is None -/
+def allBased : WT → Option Dict → Dict → Bool
+  | .nil, _, _ => true
+  | .leaf n df _ rest, ctx, cmd =>
+    (match dget cmd n with
+     | some v => !v.isNull
+     | none => !(leafBase n df ctx).isNull) && allBased rest ctx cmd
+  | .nested n fac sub rest, ctx, cmd =>
+    allBased sub (childCtx n fac sub ctx) (sectionOf (dget cmd n)) && allBased rest ctx cmd
+
+theorem allPicked_of_allBased {wt w : WT} (h : Upd wt w) : ∀ ctx cmd, allBased wt ctx cmd = true → allPicked w ctx cmd = true := by
+  induction h with
+  | nil => intro ctx cmd _; rfl
+  | @leaf n df m m' rest rest' _ ih =>
+    intro ctx cmd hb
+    simp only [allBased, Bool.and_eq_true] at hb
+    simp only [allPicked, Bool.and_eq_true, ih ctx cmd hb.2, and_true]
+    cases hc : dget cmd n with
+    | some v => simpa [hc, pick] using hb.1
+    | none =>
+      have := hb.1; simp only [hc] at this
+      cases hm : m'.isNull <;> simp_all [pick]
+  | nested hs _ ih1 ih2 =>
+    intro ctx cmd hb
+    simp only [allBased, Bool.and_eq_true] at hb
+    simp only [allPicked, Bool.and_eq_true, childCtx, construct_upd hs]
+    exact ⟨ih1 _ _ (by simpa [childCtx] using hb.1), ih2 _ _ hb.2⟩
+
+/-- **corollary**: a class whose every leaf has a definition default (or a default instance), well-formed sources, a
+    command line without None ⇒ the pipeline returns `.ok` with the priority value at every leaf -/
+theorem c06_total_of_defaults (wt : WT) (ds : List Dict) (ctx : Option Dict) (cmd : Dict)
+    (hgood : ∀ d ∈ ds, goodSrc wt d = true) (hbase : allBased wt ctx cmd = true) :
+    ∃ w out, applySrcs wt ds = .ok w ∧ resolve w ctx cmd = .ok out ∧
+      ∀ p m, slotAt wt p = some m → ∃ b, baseAt wt ctx p = some b ∧
+        getPath p (.dict out) = some (pick (getPath p (.dict cmd)) (foldAssign p ds m) b) :=
+  c06_total wt ds ctx cmd hgood (fun w hw => allPicked_of_allBased (applySrcs_upd ds wt w hw) ctx cmd hbase)
+
+/-- non-vacuous: `clsA` (every leaf has a definition default) with `srcA1`, `srcA2` and an empty command line -/
+example : ∃ w out, applySrcs clsA [srcA1, srcA2] = .ok w ∧ resolve w none [] = .ok out := by
+  obtain ⟨w, out, h1, h2, _⟩ := c06_total_of_defaults clsA [srcA1, srcA2] none []
+    (by intro d hd; simp at hd; rcases hd with rfl | rfl <;> decide) (by decide)
+  exact ⟨w, out, h1, h2⟩
+
+/-! ### unknown keys, at the level of the parser -/
+
+theorem applySrcs_mem : ∀ (ds : List Dict) (wt w : WT) (d : Dict), applySrcs wt ds = .ok w → d ∈ ds →
+    ∃ w1 w2, Upd wt w1 ∧ setDefault w1 d = .ok w2
+  | [], _, _, _, _, hd => by cases hd
+  | d0 :: ds, wt, w, d, h, hd => by
+    simp only [applySrcs] at h
+    cases hs : setDefault wt d0 with
+    | error e => simp [hs] at h
+    | ok w0 =>
+      simp [hs] at h
+      rcases List.mem_cons.mp hd with rfl | hd'
+      · exact ⟨wt, w0, Upd.refl _, hs⟩
+      · obtain ⟨w1, w2, hu, h2⟩ := applySrcs_mem ds w0 w d h hd'
+        exact ⟨w1, w2, (setFields_upd _ _ _ (setDefault_ok hs).1).trans hu, h2⟩
+
+/-- **an unknown key in any file section makes the whole parse fail** (it cannot return a result): the section `d` of
+    any of the files `parse_known_args` applies, holding a key that names no field of the registered class — at the top
+    of the section or at any depth below it -/
+theorem c06_parse_unknown_key (wr : Bool) (st : PState) (r : Reg) (pin : ParseIn) (hst : st.regs = [r])
+    (d : Dict) (hd : d ∈ fileSrcs wr r.dest (fileSeq pin))
+    (hu : unknownKeys r.wt d = true ∨ nestedUnknown r.wt d = true) : ∀ out, parsePhase wr st pin ≠ .ok out := by
+  intro out h
+  obtain ⟨wt', _, hsrc, _, _⟩ := c06_parse_single wr st r pin out hst h
+  obtain ⟨w1, w2, hupd, h2⟩ := applySrcs_mem _ _ _ d hsrc hd
+  exact c06_unknown_key_any_depth w1 d (by rw [unknownKeys_upd hupd, nestedUnknown_upd hupd]; exact hu) w2 h2
+
+def stA : PState := { regs := [{ dest := ['c'], wt := clsA, inst := none }], cons := [], stray := [] }
+
+/-- non-vacuous: a constructor file `{s: {z: 5}}` (root-less layout) — `z` names no field of `S` -/
+example : ∀ out, parsePhase true stA { ctorFiles := [[(['s'], .dict [(['z'], .int 5)])]], addArg := none,
+                                       cliFiles := none, cmd := [] } ≠ .ok out :=
+  c06_parse_unknown_key true stA { dest := ['c'], wt := clsA, inst := none } _ rfl
+    (unionD [(['s'], .dict [(['z'], .int 5)])] []) (List.Mem.head _) (Or.inr (by decide))
+
+/-! ### the two file layers, in order -/
+
+/-- what file `f` says about the leaf at `dest.p` (after re-rooting for the root-less layout) -/
+def fileHas (wr : Bool) (dest : Str) (f : Dict) (p : List Str) : Option J :=
+  match dget (kwOf wr dest f) dest with
+  | some (.dict d) => getPath p (.dict d)
+  | _ => none
+
+def foldFiles (wr : Bool) (dest : Str) (p : List Str) : List Dict → J → J
+  | [], m => m
+  | f :: fs, m => foldFiles wr dest p fs (assign (fileHas wr dest f p) m)
+
+theorem foldAssign_fileSrcs (wr : Bool) (dest : Str) (p : List Str) : ∀ (fs : List Dict) (m : J),
+    foldAssign p (fileSrcs wr dest fs) m = foldFiles wr dest p fs m
+  | [], m => rfl
+  | f :: fs, m => by
+    cases h : dget (kwOf wr dest f) dest with
+    | none => simp [fileSrcs, foldFiles, fileHas, h, assign, foldAssign_fileSrcs wr dest p fs]
+    | some v =>
+      cases v <;> simp [fileSrcs, foldFiles, fileHas, h, assign, foldAssign, foldAssign_fileSrcs wr dest p fs]
+
+theorem foldFiles_append (wr : Bool) (dest : Str) (p : List Str) (a b : List Dict) (m : J) :
+    foldFiles wr dest p (a ++ b) m = foldFiles wr dest p b (foldFiles wr dest p a m) := by
+  induction a generalizing m with
+  | nil => rfl
+  | cons f fs ih => simp [foldFiles, ih]
+
+theorem foldFiles_none (wr : Bool) (dest : Str) (p : List Str) (fs : List Dict) (m : J)
+    (h : ∀ t ∈ fs, fileHas wr dest t p = none) : foldFiles wr dest p fs m = m := by
+  induction fs generalizing m with
+  | nil => rfl
+  | cons f fs ih =>
+    simp only [foldFiles, h f (by simp), assign]
+    exact ih m (fun t ht => h t (by simp [ht]))
+
+/-- within one list of files the last one that has the leaf decides, whatever came before -/
+theorem foldFiles_last (wr : Bool) (dest : Str) (p : List Str) (pre post : List Dict) (f : Dict) (v : J)
+    (hf : fileHas wr dest f p = some v) (hpost : ∀ t ∈ post, fileHas wr dest t p = none) (m : J) :
+    foldFiles wr dest p (pre ++ f :: post) m = v := by
+  rw [foldFiles_append]
+  simp only [foldFiles, hf, assign]
+  exact foldFiles_none wr dest p post v hpost
+
+/-- `add_config_path_arg` as the constructor resolves it (parsing.py:167-170) -/
+def addArgOn (p : ParseIn) : Bool :=
+  match p.addArg with
+  | some b => b
+  | none => !p.ctorFiles.isEmpty
+
+theorem fileSeq_eq (p : ParseIn) :
+    fileSeq p = p.ctorFiles ++ (if addArgOn p then (match p.cliFiles with | some fs => fs | none => p.ctorFiles) else []) := by
+  unfold fileSeq addArgOn
+  cases p.addArg with
+  | none => cases p.ctorFiles.isEmpty <;> simp
+  | some b => cases b <;> simp
+
+/-- **`--config_path` files beat constructor files, and among themselves the later one wins**: the last command-line
+    file that gives the leaf a non-None value decides, whatever the constructor files and the earlier command-line
+    files say, when no explicit option is given for the leaf -/
+theorem c06_cli_layer_wins (wr : Bool) (st : PState) (r : Reg) (pin : ParseIn) (out : Dict)
+    (hst : st.regs = [r]) (h : parsePhase wr st pin = .ok out) (k : Str) (q : List Str) (m : J)
+    (hp : slotAt r.wt (k :: q) = some m)
+    (pre post : List Dict) (f : Dict) (v : J)
+    (hcli : pin.cliFiles = some (pre ++ f :: post)) (hon : addArgOn pin = true)
+    (hf : fileHas wr r.dest f (k :: q) = some v) (hv : v.isNull = false)
+    (hpost : ∀ t ∈ post, fileHas wr r.dest t (k :: q) = none)
+    (hcmd : getPath (r.dest :: k :: q) (.dict pin.cmd) = none) :
+    getPath (r.dest :: k :: q) (.dict out) = some v := by
+  obtain ⟨b, _, hg⟩ := c06_parse_priority wr st r pin out hst h k q m hp
+  rw [hg, hcmd, foldAssign_fileSrcs, fileSeq_eq, hon, hcli]
+  simp only [if_true]
+  rw [← List.append_assoc, foldFiles_last wr r.dest (k :: q) _ post f v hf hpost]
+  simp [pick, hv]
+
+/-- **constructor files in order, below the `--config_path` files**: the last constructor file that gives the leaf a
+    non-None value decides when no command-line file has the leaf and no explicit option is given (also when the
+    constructor files are applied a second time because `--config_path` is absent) -/
+theorem c06_ctor_layer_wins (wr : Bool) (st : PState) (r : Reg) (pin : ParseIn) (out : Dict)
+    (hst : st.regs = [r]) (h : parsePhase wr st pin = .ok out) (k : Str) (q : List Str) (m : J)
+    (hp : slotAt r.wt (k :: q) = some m)
+    (pre post : List Dict) (f : Dict) (v : J)
+    (hctor : pin.ctorFiles = pre ++ f :: post)
+    (hf : fileHas wr r.dest f (k :: q) = some v) (hv : v.isNull = false)
+    (hpost : ∀ t ∈ post, fileHas wr r.dest t (k :: q) = none)
+    (hcli : ∀ fs, pin.cliFiles = some fs → ∀ t ∈ fs, fileHas wr r.dest t (k :: q) = none)
+    (hcmd : getPath (r.dest :: k :: q) (.dict pin.cmd) = none) :
+    getPath (r.dest :: k :: q) (.dict out) = some v := by
+  obtain ⟨b, _, hg⟩ := c06_parse_priority wr st r pin out hst h k q m hp
+  have hL : ∀ m', foldFiles wr r.dest (k :: q) pin.ctorFiles m' = v := by
+    intro m'; rw [hctor]; exact foldFiles_last wr r.dest (k :: q) pre post f v hf hpost m'
+  have : foldFiles wr r.dest (k :: q) (fileSeq pin) m = v := by
+    rw [fileSeq_eq, foldFiles_append, hL]
+    cases addArgOn pin with
+    | false => rfl
+    | true =>
+      simp only [if_true]
+      cases hc : pin.cliFiles with
+      | some fs => exact foldFiles_none wr r.dest (k :: q) fs v (hcli fs hc)
+      | none => exact hL v
+  rw [hg, hcmd, foldAssign_fileSrcs, this]
+  simp [pick, hv]
+
+/-! ### from the construction of the parser: default instance < `set_defaults(**kw)` < files < command line -/
+
+theorem setFields_nil : ∀ wt : WT, setFields wt [] = .ok wt
+  | .nil => rfl
+  | .leaf n df m rest => by simp [setFields, setFields_nil rest, dget]
+  | .nested n fac sub rest => by simp [setFields, setFields_nil rest, dget]
+
+theorem setDefault_nil (wt : WT) : setDefault wt [] = .ok wt := by
+  simp [setDefault, setFields_nil, unknownKeys]
+
+/-- the sections the wrapper at `dest` receives from `set_defaults(**kw)` calls (dest-keyed keywords) -/
+def kwSrcs (dest : Str) : List Dict → List Dict
+  | [] => []
+  | kw :: kws =>
+    match dget kw dest with
+    | some (.dict d) => d :: kwSrcs dest kws
+    | _ => kwSrcs dest kws
+
+theorem parserSetDefaults_kw_single (wr : Bool) (st st' : PState) (r : Reg) (kw : Dict)
+    (hst : st.regs = [r]) (h : parserSetDefaults wr st none kw = .ok st') :
+    ∃ w, st'.regs = [{ r with wt := w }] ∧ applySrcs r.wt (kwSrcs r.dest [kw]) = .ok w := by
+  unfold parserSetDefaults at h
+  simp only [hst, effectiveKw, applyRegs] at h
+  cases hd : dget kw r.dest with
+  | none =>
+    simp [hd] at h; subst h
+    exact ⟨r.wt, by simp, by simp [kwSrcs, hd, applySrcs]⟩
+  | some v =>
+    cases v with
+    | null => simp [hd] at h
+    | int i => simp [hd] at h
+    | str x => simp [hd] at h
+    | atom x => simp [hd] at h
+    | dict d =>
+      cases hs : setDefault r.wt d with
+      | error e => simp [hd, hs] at h
+      | ok w =>
+        simp [hd, hs] at h; subst h
+        exact ⟨w, by simp, by simp [kwSrcs, hd, applySrcs, hs]⟩
+
+theorem kwSrcs_cons (dest : Str) (kw : Dict) (kws : List Dict) :
+    kwSrcs dest (kw :: kws) = kwSrcs dest [kw] ++ kwSrcs dest kws := by
+  simp only [kwSrcs]; split <;> simp
+
+theorem applyKwargs_single (wr : Bool) : ∀ (kws : List Dict) (st st' : PState) (r : Reg),
+    st.regs = [r] → applyKwargs wr st kws = .ok st' →
+    ∃ w, st'.regs = [{ r with wt := w }] ∧ applySrcs r.wt (kwSrcs r.dest kws) = .ok w
+  | [], st, st', r, hst, h => by
+    simp [applyKwargs] at h; subst h
+    exact ⟨r.wt, by simpa using hst, by simp [kwSrcs, applySrcs]⟩
+  | kw :: kws, st, st', r, hst, h => by
+    simp only [applyKwargs] at h
+    cases hp : parserSetDefaults wr st none kw with
+    | error e => simp [hp] at h
+    | ok st1 =>
+      simp [hp] at h
+      obtain ⟨w1, hr1, ha1⟩ := parserSetDefaults_kw_single wr st st1 r kw hst hp
+      obtain ⟨w2, hr2, ha2⟩ := applyKwargs_single wr kws st1 st' { r with wt := w1 } hr1 h
+      refine ⟨w2, by simpa using hr2, ?_⟩
+      rw [kwSrcs_cons]
+      exact applySrcs_append _ _ _ _ _ ha1 (by simpa using ha2)
+
+/-- the wrapper `add_arguments(cls, dest, default=inst)` creates on a fresh parser: the class, with the default
+    instance's attributes pushed into the slots -/
+def wt0Of (cls : WT) (inst : Option Dict) : WT :=
+  match inst with
+  | some i => initInst cls i
+  | none => cls
+
+theorem addArguments_empty (wr : Bool) (dest : Str) (cls : WT) (inst : Option Dict) :
+    addArguments wr emptyState dest cls inst =
+      .ok { regs := [{ dest := dest, wt := wt0Of cls inst, inst := inst }], cons := [], stray := [] } := by
+  cases inst <;> simp [addArguments, emptyState, dget, wt0Of, setDefault_nil]
+
+/-- one registration, no keywords before it: the state `build` reaches -/
+theorem c06_build_single (c : Case) (ri : RegIn) (st : PState)
+    (hb : c.kwBefore = []) (hr : c.regs = [ri]) (h : build c = .ok st) :
+    ∃ inst w, st.regs = [{ dest := ri.dest, wt := w, inst := inst }] ∧
+      (∀ kw, ri.instKw = some kw → construct ri.cls kw = inst) ∧ (ri.instKw = none → inst = none) ∧
+      applySrcs (wt0Of ri.cls inst) (kwSrcs ri.dest c.kwAfter) = .ok w := by
+  unfold build at h
+  simp only [hb, hr, applyKwargs, addAll] at h
+  by_cases hf : facOk ri.cls = true
+  · simp only [hf, Bool.not_true, Bool.false_eq_true, if_false] at h
+    cases hk : ri.instKw with
+    | none =>
+      simp only [hk, addArguments_empty] at h
+      obtain ⟨w, hw1, hw2⟩ := applyKwargs_single c.withoutRoot c.kwAfter _ st _ rfl h
+      refine ⟨none, w, ?_, ?_, ?_, ?_⟩
+      · simpa using hw1
+      · intro kw e; cases e
+      · intro _; rfl
+      · simpa using hw2
+    | some kw =>
+      cases hc : construct ri.cls kw with
+      | none => simp [hk, hc] at h
+      | some i =>
+        simp only [hk, hc, addArguments_empty] at h
+        obtain ⟨w, hw1, hw2⟩ := applyKwargs_single c.withoutRoot c.kwAfter _ st _ rfl h
+        refine ⟨some i, w, ?_, ?_, ?_, ?_⟩
+        · simpa using hw1
+        · intro kw' e; cases e; exact hc
+        · intro e; cases e
+        · simpa using hw2
+  · simp [hf] at h
+
+/-- **all five layers, from `run`** (one registration, no keywords before it): the leaf at `dest.p` of the result is
+    the command-line value if given, else the value of the last source — `set_defaults(**kw)` calls in order, then the
+    constructor files in order, then the `--config_path` files in order — that contains the leaf (if not None), else
+    the slot the default instance left (`slotAt_initInst`: its attribute), else the instance attribute / definition
+    default the wrapper sees -/
+theorem c06_run_layers (c : Case) (ri : RegIn) (out : Dict)
+    (hb : c.kwBefore = []) (hr : c.regs = [ri]) (h : run c = .ok out) :
+    ∃ inst, (∀ kw, ri.instKw = some kw → construct ri.cls kw = inst) ∧ (ri.instKw = none → inst = none) ∧
+      ∀ (k : Str) (q : List Str) (m : J), slotAt (wt0Of ri.cls inst) (k :: q) = some m →
+        ∃ b, baseAt (wt0Of ri.cls inst) inst (k :: q) = some b ∧
+          getPath (ri.dest :: k :: q) (.dict out) =
+            some (pick (getPath (ri.dest :: k :: q) (.dict c.parse.cmd))
+                       (foldAssign (k :: q) (kwSrcs ri.dest c.kwAfter ++
+                                             fileSrcs c.withoutRoot ri.dest (fileSeq c.parse)) m) b) := by
+  unfold run at h
+  cases hbd : build c with
+  | error e => simp [hbd] at h
+  | ok st =>
+    simp only [hbd] at h
+    obtain ⟨inst, w, hregs, hi1, hi2, hkw⟩ := c06_build_single c ri st hb hr hbd
+    refine ⟨inst, hi1, hi2, fun k q m hp => ?_⟩
+    obtain ⟨wt', i, hsrc, hres, hout⟩ := c06_parse_single c.withoutRoot st _ c.parse out hregs h
+    have hall := applySrcs_append _ _ _ _ _ hkw hsrc
+    obtain ⟨b, hb', hg, _⟩ := c06_priority_general _ wt' _ inst _ i (k :: q) m hall hres hp
+    refine ⟨b, hb', ?_⟩
+    have hcmd : getPath (ri.dest :: k :: q) (.dict c.parse.cmd) =
+        getPath (k :: q) (.dict (sectionOf (dget c.parse.cmd ri.dest))) := by
+      cases hc : dget c.parse.cmd ri.dest with
+      | none => simp [getPath, hc, dget, sectionOf]
+      | some v => cases v <;> simp [getPath, hc, dget, sectionOf]
+    rw [hcmd, hout]
+    simpa [getPath, dget] using hg
+
+/-- non-vacuous: `add_arguments(A, "c", default=A(a=10, s=S(b=11)))`, `set_defaults(c={"a": 20})`, constructor file
+    `{s: {b: 6}}`: `a = 20` (keywords over instance), `s.b = 6` (file over instance) -/
+example : run { withoutRoot := true, kwBefore := [],
+                regs := [{ dest := ['c'], cls := clsA, instKw := some [(['a'], .int 10), (['s'], .dict [(['b'], .int 11)])] }],
+                kwAfter := [[(['c'], .dict [(['a'], .int 20)])]],
+                parse := { ctorFiles := [[(['s'], .dict [(['b'], .int 6)])]], addArg := none, cliFiles := none, cmd := [] } }
+    = .ok [(['c'], .dict [(['a'], .int 20), (['s'], .dict [(['b'], .int 6)])])] := rfl
+
+def pinA : ParseIn := { ctorFiles := [srcA1], addArg := none, cliFiles := some [srcA2],
+                        cmd := [(['c'], .dict [(['s'], .dict [(['b'], .int 9)])])] }
+def outA : Dict := [(['c'], .dict [(['a'], .int 7), (['s'], .dict [(['b'], .int 9)])])]
+
+/-- non-vacuous: constructor file says `a = 5`, the `--config_path` file says `a = 7`: 7 -/
+example : getPath [['c'], ['a']] (.dict outA) = some (.int 7) :=
+  c06_cli_layer_wins true stA { dest := ['c'], wt := clsA, inst := none } pinA outA rfl rfl ['a'] [] .null rfl
+    [] [] srcA2 (.int 7) rfl rfl rfl rfl (by intro t ht; cases ht) rfl
+
+/-- non-vacuous: only the constructor file has `s.b` (= 6); `--config_path` absent, so the file is applied twice -/
+example : getPath [['c'], ['s'], ['b']] (.dict [(['c'], .dict [(['a'], .int 5), (['s'], .dict [(['b'], .int 6)])])]) = some (.int 6) :=
+  c06_ctor_layer_wins true stA { dest := ['c'], wt := clsA, inst := none }
+    { ctorFiles := [srcA1], addArg := none, cliFiles := none, cmd := [] } _ rfl rfl ['s'] [['b']] .null rfl
+    [] [] srcA1 (.int 6) rfl rfl rfl (by intro t ht; cases ht) (by intro fs h; cases h) rfl
+
 /-! ### the parser: order of the file layers, and the two open findings reproduced end to end -/
 
-def clsA : WT := .leaf ['a'] (some (.int 1)) .null (.nested ['s'] none (.leaf ['b'] (some (.int 2)) .null .nil) .nil)
-def regA : RegIn := { dest := ['c'], cls := clsA, instKw := none }
 
 /-- constructor files, then `--config_path` files, then the command line, leaf by leaf (`parse()` layout) -/
 example : run { withoutRoot := true, kwBefore := [], regs := [regA], kwAfter := [],
